@@ -21,7 +21,8 @@ CONSTANTS Outcomes,   \* subset of AllOutcomes used by this model instance
 AllOutcomes == {"ok200", "redir302", "raise404", "ret404", "raise503",
                 "uncaughtVE", "uncaughtKE", "nbraise404", "nbret403"}
 
-Routes == {"R1", "R2", "R3", "NULL"}
+\* SR / SX: the stats application's own read and reset routes (they are routes too: their requests are counted)
+Routes == {"R1", "R2", "R3", "NULL", "SR", "SX"}
 
 NonBreaking(o) == o \in {"nbraise404", "nbret403"}
 
@@ -99,16 +100,24 @@ Req(q) == /\ hits' = Apply(hits, Visits(q))
           /\ reached' = Count(reached, Visits(q))
           /\ ops' = Append(ops, [a |-> "req", q |-> q, status |-> FinalStatus(q), table |-> {}])
 
-\* GET <stats>/ : observes the table
-Read == /\ UNCHANGED <<hits, reached>>
-        /\ ops' = Append(ops, [a |-> "read", q |-> [k |-> "-", o1 |-> "-", o2 |-> "-"],
-                               status |-> 200, table |-> Table(hits)])
+Bump(h, r) == [h EXCEPT ![r]["200"] = @ + 1]
+\* GET <stats>/ : observes the table.  The read request itself reaches route SR and is counted exactly once - either
+\* before the table is computed (incl) or after (the implementation records a hit when the request completes)
+ReadT(incl, tbl) ==
+    /\ tbl = Table(IF incl THEN Bump(hits, "SR") ELSE hits)
+    /\ hits' = Bump(hits, "SR")
+    /\ reached' = [reached EXCEPT !["SR"] = @ + 1]
+    /\ ops' = Append(ops, [a |-> "read", q |-> [k |-> "-", o1 |-> "-", o2 |-> "-"], status |-> 200, table |-> tbl])
+Read == \E incl \in BOOLEAN : ReadT(incl, Table(IF incl THEN Bump(hits, "SR") ELSE hits))
 
-\* POST <stats>/reset : returns the totals so far, then counting restarts from zero
-Reset == /\ hits' = Zero
-         /\ reached' = [r \in Routes |-> 0]
-         /\ ops' = Append(ops, [a |-> "reset", q |-> [k |-> "-", o1 |-> "-", o2 |-> "-"],
-                                status |-> 200, table |-> Table(hits)])
+\* POST <stats>/reset : returns the totals so far, then counting restarts from zero.  The reset request itself is
+\* counted exactly once: in the returned totals (incl) or as the first hit of the new epoch
+ResetT(incl, tbl) ==
+    /\ tbl = Table(IF incl THEN Bump(hits, "SX") ELSE hits)
+    /\ hits' = IF incl THEN Zero ELSE Bump(Zero, "SX")
+    /\ reached' = [r \in Routes |-> IF r = "SX" /\ ~incl THEN 1 ELSE 0]
+    /\ ops' = Append(ops, [a |-> "reset", q |-> [k |-> "-", o1 |-> "-", o2 |-> "-"], status |-> 200, table |-> tbl])
+Reset == \E incl \in BOOLEAN : ResetT(incl, Table(IF incl THEN Bump(hits, "SX") ELSE hits))
 
 Next == /\ Len(ops) < MaxOps
         /\ \/ \E q \in Requests : Req(q)
@@ -124,9 +133,9 @@ SumOver(f, S) == IF S = {} THEN 0 ELSE LET b == CHOOSE x \in S : TRUE IN f[b] + 
 SumMatches == \A r \in Routes : SumOver(hits[r], Buckets) = reached[r]
 \* each request is counted at most once per route
 OncePerRoute == [][\A r \in Routes : SumOver(hits'[r], Buckets) <= SumOver(hits[r], Buckets) + 1
-                                     \/ hits' = Zero]_vars
+                                     \/ hits' = Zero \/ hits' = Bump(Zero, "SX")]_vars
 \* reset restarts from zero
-ResetZeroes == [][(ops' # ops /\ ops'[Len(ops')].a = "reset") => hits' = Zero]_vars
+ResetZeroes == [][(ops' # ops /\ ops'[Len(ops')].a = "reset") => (hits' = Zero \/ hits' = Bump(Zero, "SX"))]_vars
 
 Emit == (Len(ops) = MaxOps) => PrintT(<<"EMIT", ToJson([ops |-> ops])>>)
 =============================================================================
